@@ -206,6 +206,9 @@ func runCliCase(x *cliCtx, sample func(string) bool) {
 		}
 		x.closure("filter --append", out, archInspectable(&ap.Out), archVerifiable(&ap.Out))
 	}
+	if cliOnlyFilter {
+		return
+	}
 	// index
 	for _, codec := range []string{"car-multihash-index-sorted", "car-index-sorted", "none"} {
 		for _, ver := range []int{2, 1} {
@@ -403,6 +406,8 @@ func runCliCase(x *cliCtx, sample func(string) bool) {
 	}
 }
 
+var cliOnlyFilter bool
+
 func runCliReplay(args []string) int {
 	in, out, carBin := args[0], args[1], args[2]
 	permille := uint64(1000)
@@ -413,6 +418,9 @@ func runCliReplay(args []string) int {
 		}
 		if strings.HasPrefix(a, "seed=") {
 			fmt.Sscan(a[5:], &seed)
+		}
+		if a == "only=filter" {
+			cliOnlyFilter = true
 		}
 	}
 	rep := newReport("cli")
